@@ -6,7 +6,7 @@ from ..engines import queueproto as Q
 def run(ctx):
     # language-level slips in the modules the property is anchored in (engine Y)
     from ..engines import gotchas as GY
-    GY.run(ctx, ('class_queue', 'comb_spec_searcher'))
+    GY.run(ctx, ('class_queue', 'comb_spec_searcher', 'strategies.strategy_pack'))
     ctx.floor("Y", 1)
     ctx.extra["explanation"] = (
         "static analysis (ast, no execution) of DefaultQueue's control structure: the "
@@ -38,3 +38,10 @@ def run(ctx):
     from ..engines import queueproto as QP
     QP.q13_staging_is_a_queue(ctx)
     ctx.floor("Q13", 1)
+    # the packets the queue hands out are made from the pack's groups: a pack built from another keeps each group in its place
+    from ..engines import jsonpairs as JP16
+    JP16.j11_pack_builders_carry_everything(ctx)
+    ctx.floor("J11", 6)
+    from ..engines import provenance as PV13
+    PV13.a13_add_rule_bookkeeping(ctx)
+    ctx.floor("A13", 3)
